@@ -20,8 +20,8 @@ Comments:
 * `strip_idempotent_chars`      trimming removes exactly the leading/trailing blanks
 
 Lexer:
-* `spanLen_le`, `lexOne_consumes`   every lexer step consumes at least one character (termination of `lexAux`
-                                    with fuel `length + 1`), and never more than there is
+* `spanLen_le`, `idLen_le`          length bounds; progress, termination, positions, reconstruction and
+                                    white-space invariance of the lexer are in `Props/C03Lex.lean`
 -/
 namespace Pydjinni.Front
 
